@@ -101,6 +101,7 @@ def gen_urdf(rng, tier):
     nl = rng.choice([1, 2, 3, 3, 4, 4, 5, 6] if tier == "quick" else [1, 2, 3, 4, 5, 6, 7, 8, 9])
     shape = rng.choice(["chain", "tree", "tree", "star"])
     links, joints = [], []
+    with_visuals = rng.random() < 0.2
     for i in range(nl):
         ncol = rng.choices([0, 1, 2, 3], [0.12, 0.58, 0.24, 0.06])[0]
         cols = []
@@ -113,6 +114,13 @@ def gen_urdf(rng, tier):
                 o += [rng.uniform(-math.pi, math.pi) for _ in range(3)]
             cols.append(dict(name=(f"c{k}" if rng.random() < 0.3 else None), kind=kind, params=params, origin=o))
         links.append(dict(name=f"l{i}", collisions=cols))
+        if with_visuals:
+            vis = []
+            for k in range(rng.choices([0, 1, 2], [0.3, 0.5, 0.2])[0]):
+                kind, params = gen_geom(rng, ["sphere", "box", "cylinder"])
+                vis.append(dict(name=(f"v{k}" if rng.random() < 0.3 else None), kind=kind, params=params,
+                                origin=[rng.uniform(-0.15, 0.15) for _ in range(3)] + [0.0, 0.0, 0.0]))
+            links[-1]["visuals"] = vis
         if i > 0:
             parent = dict(chain=i - 1, star=0).get(shape, rng.randrange(i))
             jt = rng.choices(["revolute", "prismatic", "continuous", "fixed"], [0.5, 0.2, 0.15, 0.15])[0]
@@ -137,11 +145,11 @@ def gen_urdf(rng, tier):
     return dict(name="robot", root="l0", links=links, joints=joints)
 
 
-def urdf_frames(u):
+def urdf_frames(u, visuals=False):
     out = []
     for ln in u["links"]:
-        for k, c in enumerate(ln["collisions"]):
-            out.append(f"collision:{ln['name']}/{c['name'] if c.get('name') else k}")
+        for k, c in enumerate(ln.get("visuals", []) if visuals else ln["collisions"]):
+            out.append(f"{'visual' if visuals else 'collision'}:{ln['name']}/{c['name'] if c.get('name') else k}")
     return out
 
 
@@ -183,7 +191,8 @@ def gen_world(rng, tier, stream):
                            kind=kind, params=params, pose0=gen_pose(rng, 0.6)))
     cmds = []
     frames = []          # registered frames, as the generator believes
-    uframes = urdf_frames(u) if u else []
+    use_visuals = bool(u) and any(ln.get("visuals") for ln in u["links"]) and rng.random() < 0.6
+    uframes = urdf_frames(u, use_visuals) if u else []
     movable = [j for j in (u["joints"] if u else []) if j["type"] != "fixed"]
 
     def observe(p_query=0.5):
@@ -215,18 +224,18 @@ def gen_world(rng, tier, stream):
     first = pending[:rng.randint(0, len(pending))] if u else pending
     adds_first = bool(u) and rng.random() < 0.3     # colliders registered before the robot is loaded:
     if u and not adds_first:                         # fill_tree_with_colliders has to move them too
-        generated = rng.random() < 0.7
-        cmds.append(dict(op="fill", whitelists=generated))
+        generated = rng.random() < 0.7 and (not use_visuals or stream == "beyond")
+        cmds.append(dict(op="fill", whitelists=generated, use_visuals=use_visuals))
         frames += uframes
     for k in list(first):
         cmds.append(dict(op="add", extra=k))
         frames.append(extras[k]["frame"])
         pending.remove(k)
     if u and adds_first:
-        generated = rng.random() < 0.7
-        cmds.append(dict(op="fill", whitelists=generated))
+        generated = rng.random() < 0.7 and (not use_visuals or stream == "beyond")
+        cmds.append(dict(op="fill", whitelists=generated, use_visuals=use_visuals))
         frames += uframes
-    have_wl = generated and not first
+    have_wl = generated and not first and not use_visuals
 
     def maybe_wl(force=False):
         nonlocal have_wl
@@ -277,7 +286,7 @@ def gen_world(rng, tier, stream):
             elif kind == "stale":
                 cmds += observe(0.8)            # transform manager changed, no update yet
             elif kind == "refill" and u:
-                cmds.append(dict(op="fill", whitelists=rng.random() < 0.5))
+                cmds.append(dict(op="fill", whitelists=rng.random() < 0.5, use_visuals=use_visuals))
         cmds.append(dict(op="update"))
         cmds += observe()
         if rng.random() < 0.25:
@@ -709,7 +718,7 @@ def run(tier, seed, replay=None):
     R = cm.Run(PID, "proof", tier, seed)
     R.cov["rule"] = (
         "case = two worlds; world = URDF chain/tree/star of 1-9 links (0-3 sphere/box/cylinder collision objects per "
-        "link, revolute/prismatic/continuous/fixed joints) loaded by UrdfTransformManager, or a plain TransformManager, "
+        "link, 20% also with visual objects, then loaded with use_visuals=True in 60% of those, revolute/prismatic/continuous/fixed joints) loaded by UrdfTransformManager, or a plain TransformManager, "
         "plus 0-7 capsule/cone/mesh/sphere/box/cylinder colliders registered with add_collider (built away from their "
         "frame's transform); history = fill_tree_with_colliders (with/without generated whitelists), add_collider, "
         "hand-made (asymmetric, partial, replacing) whitelists, 1-5 rounds of random set_joint (incl. limits) / "
